@@ -3,7 +3,9 @@
 Space: (a) supported models - every DFS-ordered tree with <=N bodies x every joint-kind assignment with colliding
 geoms over a plane (contacts, limits), the tendon families, the constraint-graph "generic" family of C28 (equalities,
 tendon limits/friction), and the kitchen-sink scene in its four pipeline variants; Jacobian mode and cone cycle with
-the scenario index; 2 states each; (b) a list of unsupported features, each alone.
+the scenario index; 2 states each; the model-SIZE family: exact nv on both sides of / inside the windows between every nv at
+which MJWarp or MuJoCo change the representation of M, qLD or efc_J (see SIZES) x jacobian auto / dense / sparse x tree
+layout (many 6-dof trees / one serial chain), with contacts of every condim, limit, friction and equality rows; (b) a list of unsupported features, each alone.
 
 Oracle:
   put_model: unsupported -> NotImplementedError / ValueError.  Supported -> every field of types.Model / Option /
@@ -27,14 +29,15 @@ from mc import space, util
 ID = "C31"
 LEVEL = "exploration"
 RULE = (
-  "enumerate model specs (trees x joint kinds with contacts; tendon families; constraint families; kitchen sink) x 2 states, "
+  "enumerate model specs (trees x joint kinds with contacts; tendon families; constraint families; kitchen sink; model sizes "
+  "around every representation threshold x jacobian option x tree layout) x 2 states, "
   "and unsupported features one at a time; non-trivial = supported model with nv>0 whose MjData has >=1 constraint row or "
   "contact and all compared Data fields contain non-zero values, or an unsupported feature that MuJoCo itself compiles; "
   "distinct = hash of spec"
 )
 BOUNDS = {
-  "quick": "trees N<=2 (all joint assignments), 7 tendon families x 2 joint sets, C28 generic family T=3 (no extra edge), sink A-D, 5 flex models, unsupported list (11 features + 17 enum/flag values); nworld=2",
-  "thorough": "trees N<=3, tendon families x 18 joint sets, C28 generic family with extra edges, sink A-D, 5 flex models, unsupported list; nworld=3",
+  "quick": "trees N<=2 (all joint assignments), 7 tendon families x 2 joint sets, C28 generic family T=3 (no extra edge), sink A-D, 5 flex models, size family nv in {6,7,32,33,48,59,60,61,64,65} x jacobian {auto,dense,sparse} x {forest,chain} (Newton), unsupported list (11 features + 17 enum/flag values); nworld=2",
+  "thorough": "trees N<=3, tendon families x 18 joint sets, C28 generic family with extra edges, sink A-D, 5 flex models, size family nv in {6,7,16,17,31..34,47..49,58..66} x jacobian x layout x {Newton,CG}, unsupported list; nworld=3",
 }
 ASSUMPTIONS = [
   "'MuJoCo fields' of Model = dataclass fields with a same-named attribute on MjModel/MjOption/MjStatistic",
@@ -92,6 +95,19 @@ POKES = {
   "geom_type_none": ("", "geom_type", 0, "mjtGeom.mjGEOM_NONE"),
 }
 
+# Model-size thresholds of the pinned tree (io.py, types.py) and of MuJoCo:
+#   M / qLD block layout (m_block_layout): tree with <= 6 dofs scalar blocks | 7..64 tile blocks | >= 65 MuJoCo's sparse LDL
+#     (get_data_into: qLD copied only when no tree has a block factor, recomputed otherwise)
+#   padded sizes (_get_padded_sizes): nv rounded up to 4 for nv <= 32, to 16 above (Newton: nv + 1): 16|17, 32|33, 47|48|49, 63|64|65
+#   efc_J on the device (is_sparse): jacobian=auto -> sparse iff nv > 32; explicit dense / sparse as requested
+#   efc_J in MjData (mj_isSparse): jacobian=auto -> sparse iff nv >= 60
+#     => window 33..59 with auto: device sparse, MjData dense; below both dense; from 60 both sparse
+#   jacobian=dense refused by put_model for nv > 60
+# sizes = last / first value on each side of every threshold and values inside every window
+SIZES = (6, 7, 16, 17, 31, 32, 33, 34, 47, 48, 49, 58, 59, 60, 61, 62, 63, 64, 65, 66)
+SIZES_QUICK = (6, 7, 32, 33, 48, 59, 60, 61, 64, 65)
+DENSE_NV_MAX = 60
+
 TENDONS = ("fixed1", "fixed2", "spatial", "sphere", "cylinder", "cylinder_side", "pulley")
 
 
@@ -127,6 +143,15 @@ def scenarios(tier, seed):
   for shape, dof, feat, col in (("1d3", "full", "edgeeq", "plane"), ("2d33", "full", "edgeeq", "plane"), ("2d33", "2d", "damping", "sphere"), ("3d222", "trilinear", "straineq", "sphere"), ("3d222", "full", "elasticity", "plane")):
     out.append(dict(fam="flex", c40=dict(shape=shape, dof=dof, feature=feat, collision=col, variant=v), variant=v, idx=i, nworld=nworld))
     i += 1
+  # model SIZE: exact nv on both sides of (and inside the windows between) every nv at which MJWarp or MuJoCo change the
+  # representation of M / qLD / efc_J, x Jacobian option (auto, dense, sparse) x tree layout; cone cycles
+  sizes = SIZES_QUICK if tier == "quick" else SIZES
+  for li, layout in enumerate(("forest", "chain")):
+    for ni, nv in enumerate(sizes):
+      for ji, jac in enumerate(("auto", "dense", "sparse")):
+        for solver in ("Newton",) if tier == "quick" else ("Newton", "CG"):
+          out.append(dict(fam="size", nv=nv, jacobian=jac, layout=layout, cone=("pyramidal", "elliptic")[(li + ni + ji) % 2], solver=solver, variant=v, idx=i, nworld=nworld))
+          i += 1
   for name in UNSUPPORTED:
     out.append(dict(fam="unsupported", feature=name, variant=v))
   for name in POKES:
@@ -184,9 +209,63 @@ def _option(idx):
 PLANE = '<geom name="floor" type="plane" size="3 3 0.1" pos="0 0 -0.05"/><body name="mc" mocap="true" pos="0.5 0.5 0.5"><geom size="0.02" contype="0" conaffinity="0"/></body>'
 
 
+_CONDIM = (3, 1, 4, 6)
+
+
+# rows of 8 links, 0.12 m apart, back and forth: the chain stays within ~1.3 m of its root, which (with the armature) keeps
+# M well conditioned (a straight 60-link chain has cond(M) ~ 1e6: factorising the float32 M is then not float32-accurate)
+_SERPENTINE = ("0.12 0 0",) * 7 + ("0 0.12 0",) + ("-0.12 0 0",) * 7 + ("0 0.12 0",)
+
+
+def _hinge_chain(n, first, pos, prefix):
+  """Serial chain of n hinge links (one tree, dense n x n inertia block) lying 5 mm deep in the floor (PLANE is at
+  z = -0.05): every link's sphere touches it; every third joint sits outside its range (limit row), every fourth has
+  friction loss."""
+  s = ""
+  for a in range(n):
+    i = first + a
+    axis = ("0 1 0", "0 0 1", "1 0 0")[a % 3]
+    attrs = ""
+    if a % 3 == 0:
+      attrs += ' limited="true" range="0.1 0.5"'
+    if a % 4 == 1:
+      attrs += ' frictionloss="0.1"'
+    s += (
+      f'<body name="{prefix}{a}" pos="{pos if a == 0 else _SERPENTINE[(a - 1) % 16]}"><joint name="j{i}" type="hinge" axis="{axis}" damping="0.1" armature="0.05"{attrs}/>'
+      f'<geom type="sphere" size="{0.05 + 0.001 * (a % 3):.3f}" condim="{_CONDIM[a % 4]}"/>'
+    )
+  return s + "</body>" * n
+
+
+def size_xml(scn):
+  """A model with exactly scn["nv"] dofs, contacts of every condim, limit / friction / equality rows.
+
+  forest: nv // 6 free bodies (boxes and spheres, 6x6 inertia blocks) resting 5 mm deep on the floor + one arm of nv % 6
+          hinges; chain: one serial tree of nv hinges (a single nv x nv inertia block)."""
+  nv = scn["nv"]
+  opt = f'<option cone="{scn["cone"]}" jacobian="{scn["jacobian"]}" solver="{scn["solver"]}"><flag energy="enable"/></option>'
+  if scn["layout"] == "chain":
+    world = _hinge_chain(nv, 0, "0 0 -0.005", "c")
+    eq = '<joint joint1="j1" joint2="j2" polycoef="0.1 0.7 0 0 0"/>' if nv >= 3 else ""
+    act = '<motor joint="j0" gear="1.5"/>'
+  else:
+    k, r = divmod(nv, 6)
+    world = ""
+    for b in range(k):
+      x, y = 0.4 * (b % 4), 0.4 * (b // 4)
+      geom = f'type="box" size="0.06 0.05 0.05" pos="0.01 0 0"' if b % 2 == 0 else 'type="sphere" size="0.05"'
+      world += f'<body name="f{b}" pos="{x:.2f} {y:.2f} -0.005"><joint name="j{b}" type="free"/><geom {geom} condim="{_CONDIM[b % 4]}"/></body>'
+    world += _hinge_chain(r, k, "-0.5 -0.5 -0.005", "a")
+    eq = '<connect body1="f0" body2="f1" anchor="0.2 0 0.01"/>' if k >= 2 else '<connect body1="f0" anchor="0.02 0 0.01"/>'
+    act = '<motor joint="j0" gear="0 0 1 0 0 0"/>'
+  return f"<mujoco>{opt}<worldbody>{PLANE}{world}</worldbody><equality>{eq}</equality><actuator>{act}</actuator></mujoco>"
+
+
 def build(scn):
   """(xml, joints or None)."""
   fam = scn["fam"]
+  if fam == "size":
+    return size_xml(scn), None
   if fam == "tree":
     acts = "".join(
       f'<motor joint="j{i}" gear="1.5"/>' if k in ("hinge", "slide", "hingeslide") else (f'<motor joint="j{i}" gear="0 0 1 0 0 0"/>' if k in ("ball", "free") else "")
@@ -383,7 +462,7 @@ def reference_data(mjm, joints, variant, which):
       mjd.qvel[:] = 0.3 * np.cos(np.arange(mjm.nv) + which)
       if mjm.nflex:
         mjd.qpos[:] = mjm.qpos0 + 0.02 * np.sin(1.7 * np.arange(mjm.nq) + which)
-  k = np.arange(1, 200, dtype=np.float64)
+  k = np.arange(1, 2000, dtype=np.float64)
   mjd.ctrl[:] = 0.3 * np.sin(k[: mjm.nu] + which)
   mjd.act[:] = 0.1 * np.cos(k[: mjm.na])
   mjd.qfrc_applied[:] = 0.2 * np.sin(2 * k[: mjm.nv])
@@ -439,6 +518,15 @@ def execute(scn):
   if mjm is None:
     return dict(ok=True, nontrivial=False, outcome="rejected_by_compiler", info=err, key=util.sha(scn))
   c = _Cmp()
+  if scn["fam"] == "size" and scn["jacobian"] == "dense" and mjm.nv > DENSE_NV_MAX:
+    # the documented refusal (same oracle and class as UNSUPPORTED["dense_nv_gt_60"]), at the first sizes beyond the limit
+    try:
+      mjw.put_model(mjm)
+      c.fail("unsupported_feature_accepted:dense_nv_gt_60", f"put_model accepted jacobian=dense with nv={mjm.nv}")
+    except (NotImplementedError, ValueError):
+      pass
+    c.nchecked += 1
+    return c.result(nontrivial=True, key=util.sha(scn), outcome="rejected_by_put_model" if not c.violations else "violation")
   try:
     m = mjw.put_model(mjm)
   except NotImplementedError as e:
